@@ -326,6 +326,7 @@ func propC04(c *Ctx) {
 	checkEveryCellFiltered(c, "R4.7")
 	c.Rule("R4.5", "attaching logs to a block shared with another task drops a log only as a duplicate", 2)
 	checkLogsAddDedup(c, "R4.5")
+	checkLogsMergedNotReplaced(c, "R4.5")
 }
 
 func fieldIs(v ssa.Value, f *types.Var) bool {
